@@ -35,6 +35,9 @@ META = {
                     "write-trace monitor: every write starts at the current end of file)",
                     "block-reordering torn writes (power loss) are outside the property's own crash model"],
 }
+META["rule"] += '; round 7: one shard of cuts runs the loader under python -O (PYTHONOPTIMIZE=1, confirmed through sys.flags.optimize)'
+for _t in META["require"]:
+    META["require"][_t] = list(META["require"][_t]) + ['class:loader_run_with_python_-O']
 
 
 def shards(tier):
